@@ -106,8 +106,66 @@ fn perms(n: usize) -> Vec<Vec<usize>> {
 
 /// Is `got` (a harness circuit) proportional to the reference? With `any_perm`, up to a
 /// permutation of the input qubits. Returns Ok(Some(perm is identity?)) or Ok(None).
+/// Candidate input permutations for "U(got) P proportional to U(ref)": for few qubits all
+/// of them; for many qubits the permutation is read off the single-excitation columns (the
+/// column of the reference for input e_q must be proportional to the column of `got` for
+/// input e_{pi(q)}), which leaves one candidate unless columns are degenerate.
+fn candidate_perms<T>(t: &[T], e: &[T], n: usize, prop: &dyn Fn(&[T], &[T]) -> bool) -> Vec<Vec<usize>> {
+    if n <= 5 {
+        return perms(n);
+    }
+    let dim = 1usize << n;
+    let col = |m: &[T], q: usize| -> std::ops::Range<usize> {
+        let i = 1usize << (n - 1 - q);
+        (i * dim)..((i + 1) * dim)
+    };
+    let _ = t.len();
+    // new input qubit perm[q] of `got` carries what was input qubit q of the reference:
+    // permute_inputs(t, perm)[e_{perm[q]}] = t[e_q]  must be ~ e[e_{perm[q]}]
+    let mut cands: Vec<Vec<usize>> = vec![vec![]];
+    for q in 0..n {
+        let mut next = vec![];
+        for p in 0..n {
+            if prop(&t[col(t, q)], &e[col(e, p)]) {
+                for c in &cands {
+                    if !c.contains(&p) {
+                        let mut c2 = c.clone();
+                        c2.push(p);
+                        next.push(c2);
+                    }
+                }
+            }
+        }
+        next.truncate(64);
+        cands = next;
+        if cands.is_empty() {
+            break;
+        }
+    }
+    cands
+}
+
 fn equivalent(got: &Circ, reference_: &Ref, n: usize, any_perm: bool, float_tol: f64) -> Option<bool> {
-    let ps = if any_perm { perms(n) } else { vec![(0..n).collect()] };
+    let ps: Vec<Vec<usize>> = if !any_perm {
+        vec![(0..n).collect()]
+    } else if n <= 5 {
+        perms(n)
+    } else {
+        match reference_ {
+            Ref::Exact(e) if got.is_pi4() => {
+                let t = tensor_exact(got).0;
+                candidate_perms(&t, e, n, &|a: &[R], b: &[R]| proportional_exact(a, b) && !a.iter().all(|x| crate::oracle::ring::Num::is_zero(x)))
+            }
+            _ => {
+                let e: Vec<Cf> = match reference_ {
+                    Ref::Exact(e) => e.iter().map(|r| r.to_cf()).collect(),
+                    Ref::Float(e) => e.clone(),
+                };
+                let t = tensor_float(got).0;
+                candidate_perms(&t, &e, n, &|a: &[Cf], b: &[Cf]| proportional_float(a, b, float_tol.max(1e-7)))
+            }
+        }
+    };
     match reference_ {
         Ref::Exact(e) if got.is_pi4() => {
             let t = tensor_exact(got).0;
@@ -609,6 +667,15 @@ pub fn run() {
         p.pp = r.chance(0.2);
         let circ = gen_circuit(r, &p);
         check_case("clifford-t-large", i, &circ);
+    });
+    // wide circuits: 7 qubits (up_to_perm is decided over 5040 input permutations)
+    par_cases("wide", t.pick(25usize, 800usize), move |r, i| {
+        let mut p = CircParams::unitary(7, 40, PhPool::Exact);
+        p.min_qubits = 7;
+        p.ccz = false;
+        p.pp = false;
+        let circ = gen_circuit(r, &p);
+        check_case("wide", i, &circ);
     });
     // CLI
     let Ok(cli) = std::env::var("QVMON_CLI") else {
